@@ -1825,3 +1825,9 @@ m("C11", "codeblock-syntaxerror-escapes", C,
         except SyntaxError as exc:
             raise ExpressionError(exc.msg, node.source)''',
   '''        stmts = template(textwrap.dedent(node.source.strip('\\n')))''')
+m("C20", "text-mode-decodes-entities", ZP,
+  '''                decode_htmlentities=bool(self.escape),''',
+  '''                decode_htmlentities=True,''')
+m("C06", "markup-text-stops-decoding", ZP,
+  '''                decode_htmlentities=bool(self.escape),''',
+  '''                decode_htmlentities=False,''')
